@@ -426,6 +426,8 @@ def ob_colouring(mesh, kind, deg, thorough):
                                 replay={"callable": "checks.c16:replay_colour", "confirmed": True,
                                         "kwargs": {"mesh": mesh, "kind": kind, "deg": deg, "sub": sub, "ib": ib, "tr": tr, "rep": rep}},
                                 signature="colouring/%s%d/%s" % (kind, deg, rep))
+    if n == 0 and kind in ("BC", "RBC"):
+        return held("not applicable: the library builds no %s space on %s (non-manifold / screen restrictions)" % (kind, mesh[0]))
     if n == 0:
         return {"status": "error", "detail": "no space could be built for %s %s%d" % (mesh, kind, deg)}
     return held("%d spaces (with localised / barycentric representations): inverse, slot cover, greedy spec, separation, colour classes" % n)
